@@ -28,6 +28,21 @@ Targets (each regenerated on every run of the checks that use them; the output d
         Model/VParAdv.lean `evalNode`, fuel and termination of the periodic mode)
         flux_advection              -> lean/PygyroVerif/Generated/FluxGen.lean          (2-D / 3-D arrays `a[i, j]`, `a[i, j, k]` as curried
         functions, `a[i, j] += v`, `len(coeffs)`; Props/C10Gen.lean: generated = Model/FluxAdv.lean `fluxAdvection` = Σ_k coeffs[k]·vals[i,j,k])
+        general_poloidal_advection_step_expl   (target polexpl)
+                                    -> lean/PygyroVerif/Generated/PolExplGen.lean       (float `a % b` = `pyMod a b` = a - b*floor(a/b), which is
+        Python's value for b > 0 [and for every b ≠ 0]; `from numpy import pi` in the body: `pi` a leading parameter; `bool` parameters;
+        `a.shape[0]`; 2-D arrays handed to function parameters as (contents, extent 0, extent 1); the procedure parameter `eval_spline_2d_cross`
+        `()(…)` as "its one non-Final array := g(arguments)"; Props/C12Gen.lean: generated = Model/PolAdv.lean `finalVal ∘ explFoot`)
+  pygyro/poisson/poisson_tools.py   (target density)
+        get_rho, get_perturbed_rho  -> lean/PygyroVerif/Generated/DensityGen.lean       (4-D arrays, `n, m, p = rho.shape` / `nc, = quad_coeffs.shape`
+        = extent parameters `rho_len0..2`, `quad_coeffs_len`; the annotation `T` (a module-level TypeVar over complex128[:,:,:] / float[:,:,:]):
+        the REAL instance is translated, the header says so; Props/C16Gen.lean: generated = Model/Density.lean `getRhoKernel`,
+        `getPerturbedRhoKernel` inside the box, untouched outside)
+  the vector entry points   (target evalvec)
+        nu_eval_spline_1d_vector (spline_eval_funcs.py), cu_eval_spline_1d_vector (cubic_uniform_spline_eval_funcs.py)
+                                    -> lean/PygyroVerif/Generated/EvalVectorGen.lean    (numeric default values of parameters; calls of kernels
+        inside `for i, xi in enumerate(x)`; imports EvalSplineGen / CubicUniformGen; Props/C07Gen4.lean: y[k] = what the generated scalar
+        evaluation returns at x[k], k < len(x), nothing beyond)
 
 Props/C20Gen.lean and Props/C02Gen.lean prove that the generated definitions equal the hand-written models the other
 theorems are about (so those theorems hold of what the source says *now*).  The translator REFUSES (exit status 3, no Lean
@@ -689,10 +704,10 @@ def translate_find_span(repo):
 # =====================================================================================================================
 # part 4: the general (non-uniform) spline kernels: float arrays that are written, `for ... in range`, calls between kernels
 
-ARR_TYPES = {'Nat → Rat': 1, 'Nat → Nat → Rat': 2, 'Nat → Nat → Nat → Rat': 3}
+ARR_TYPES = {'Nat → Rat': 1, 'Nat → Nat → Rat': 2, 'Nat → Nat → Nat → Rat': 3, 'Nat → Nat → Nat → Nat → Rat': 4}
 ARR_OF_DIM = {v: k for k, v in ARR_TYPES.items()}
-ARR_ANN = {'float[:]': 1, 'float[:,:]': 2, 'float[:,:,:]': 3}
-IDX_NAMES = ('k_', 'l_', 'm_')
+ARR_ANN = {'float[:]': 1, 'float[:,:]': 2, 'float[:,:,:]': 3, 'float[:,:,:,:]': 4}
+IDX_NAMES = ('k_', 'l_', 'm_', 'n_')
 
 
 def split_top(txt):
@@ -730,7 +745,17 @@ class ArrayFuncTranslator(FuncTranslator):
       * with `int_type='Int'` every `int` parameter is a Lean `Int`; `int(q)` of a float is `pyInt q` (truncation toward zero);
         locals that receive such values are `Int`; an `Int` used as an array index or a loop bound is `Int.toNat`;
       * tuple assignment `a, b = e1, e2` (simultaneous), tuple returns `return e1, e2` (fields `ret0_`, `ret1_`, types inferred when
-        there is no annotation) and `a, b = f(..)` for an earlier kernel `f` that returns a tuple."""
+        there is no annotation) and `a, b = f(..)` for an earlier kernel `f` that returns a tuple.
+
+    Further constructs (targets density / evalvec / polexpl):
+      * 4-D float arrays; `n, m, p = a.shape`, `nc, = a.shape`, `a.shape[k]` (literal k): the extents of a parameter array are the extra
+        parameters `a_len0`, `a_len1`, … of `run` (1-D: `a_len`); a parameter annotated with a module-level `TypeVar` whose constraints are
+        the float and the complex128 array of the same dimensions: the REAL instance (`typevars`, set by kernel_functions);
+      * numeric default values of parameters (they concern callers only);
+      * with `procedures = True`: `bool` parameters (`if (b):` tests `b = true`); `a % b` on floats = `pyMod a b`; `from numpy import pi` at the
+        top of the body (`pi` a leading parameter); function parameters with `Final[float[:,:]]` arguments (passed as contents and the two
+        extents) and procedure parameters `()(…)` with exactly one non-Final `float[:,:]` argument: the statement `g(args)` is
+        `that array := g(args)` with `g` an uninterpreted function of ALL arguments (assumption: no hidden state, no other effect)."""
 
     DECORATORS = ('pure', 'stack_array')
 
@@ -744,6 +769,10 @@ class ArrayFuncTranslator(FuncTranslator):
         self.externals = dict(externals or {})   # module-level pure functions: name -> (argument types, return type)
         self.ext = {}                            # the uninterpreted functions of the function being translated
         self.int_builtin = False                 # is `int` the builtin in this module? (set by kernel_functions)
+        self.typevars = {}                       # module-level TypeVar name -> the array annotation of its REAL instance (kernel_functions)
+        self.shaped = set()                      # arrays of 2 or more dimensions whose `.shape` the function reads
+        self.procedures = False                  # function parameters `()(…)` that write one array, 2-D array arguments, `bool` parameters,
+        #                                          `from numpy import pi` in the body, `%` on floats (target polexpl)
 
     # ---- typing -----------------------------------------------------------------------------------------------
     def fun_annotation(self, a, ann):
@@ -754,36 +783,69 @@ class ArrayFuncTranslator(FuncTranslator):
         if not m:
             return None
         base = {'int': self.int_type, 'float': 'Rat'}
-        if m.group(1) not in base:
+        if m.group(1) not in base and not (m.group(1) == '' and self.procedures):
             self.refuse(a, 'function parameter %s must return int or float' % a.arg)
-        args = []
+        args, outs = [], []
         for t in split_top(m.group(2)):
             if t in base:
                 args.append(base[t])
             elif t == 'Final[float[:]]':
                 args.append('Nat → Rat')
+            elif self.procedures and t == 'Final[float[:,:]]':
+                args.append('Nat → Nat → Rat')
+            elif self.procedures and m.group(1) == '' and t == 'float[:,:]':
+                args.append('out:Nat → Nat → Rat')          # the array the procedure writes
+                outs.append(t)
             else:
-                self.refuse(a, 'function parameter %s: argument type %s (only int, float, Final[float[:]])' % (a.arg, t))
+                self.refuse(a, 'function parameter %s: argument type %s (only int, float, Final[float[:]]%s)' % (
+                    a.arg, t, ', Final[float[:,:]], and one float[:,:] of a procedure' if self.procedures else ''))
+        if m.group(1) == '':
+            # a procedure `()(…)`: exactly one array argument that is not Final; the call is modelled as `that array := g(all arguments)`
+            if len(outs) != 1:
+                self.refuse(a, 'procedure parameter %s must have exactly one array argument that is not Final' % a.arg)
+            return args, 'Nat → Nat → Rat'
         return args, base[m.group(1)]
 
     def lean_type(self, v, types):
         if types[v] != 'ext':
             return types[v]
         args, ret = self.ext[v]
-        return ' → '.join(['(Nat → Rat) → Nat' if t == 'Nat → Rat' else t for t in args] + [ret])
+        as_arg = {'Nat → Rat': '(Nat → Rat) → Nat', 'Nat → Nat → Rat': '(Nat → Nat → Rat) → Nat → Nat',
+                  'out:Nat → Nat → Rat': '(Nat → Nat → Rat) → Nat → Nat'}
+        return ' → '.join([as_arg.get(t, t) for t in args] + [ret])
 
     def lean_default(self, v, types):
         if types[v] == 'ext':
-            n = sum(2 if t == 'Nat → Rat' else 1 for t in self.ext[v][0])
-            return 'fun %s=> 0' % ('_ ' * n)
+            n = sum(2 if t == 'Nat → Rat' else (3 if t.endswith('Nat → Nat → Rat') else 1) for t in self.ext[v][0])
+            return 'fun %s=> 0' % ('_ ' * (n + ARR_TYPES.get(self.ext[v][1], 0)))
+        if types[v] == 'Bool':
+            return 'false'
         if types[v] in ARR_TYPES:
             return 'fun %s=> 0' % ('_ ' * ARR_TYPES[types[v]])
         return '0'
 
     def infer_types(self, fn):
-        types, params, self.final, self.ext = {}, [], set(), {}
+        types, params, self.final, self.ext, self.shaped = {}, [], set(), {}, set()
+        # `a.shape` of a parameter array: its extents are extra parameters `a_len0`, `a_len1`, … (1-D: `a_len`, as for `len(a)`)
+        shaped = {n.value.id for n in ast.walk(fn) if isinstance(n, ast.Attribute) and n.attr == 'shape' and isinstance(n.value, ast.Name)}
+        if self.procedures:
+            # an array of 2 dimensions handed to a function parameter is passed as (contents, extent 0, extent 1)
+            fparams = {a.arg for a in fn.args.args if isinstance(a.annotation, ast.Constant) and isinstance(a.annotation.value, str)
+                       and a.annotation.value.startswith('(')}
+            shaped |= {x.id for n in ast.walk(fn) if isinstance(n, ast.Call) and isinstance(n.func, ast.Name) and n.func.id in fparams
+                       for x in n.args if isinstance(x, ast.Name)}
+            for n in ast.walk(fn):
+                if isinstance(n, (ast.Import, ast.ImportFrom)):
+                    if not (isinstance(n, ast.ImportFrom) and n in fn.body and n.module == 'numpy' and n.level == 0 and len(n.names) == 1
+                            and n.names[0].name == 'pi' and n.names[0].asname is None) or 'pi' in types:
+                        self.refuse(n, 'import inside the function (only `from numpy import pi`, once, at the top level of the body)')
+                    types['pi'] = 'Rat'            # the constant is a leading parameter of `run`
+                    params.append('pi')
         if fn.args.vararg or fn.args.kwarg or fn.args.kwonlyargs or fn.args.posonlyargs:
             self.refuse(fn, 'only plain positional parameters')
+        for d in fn.args.defaults:                # a default value concerns callers only: `run` takes every parameter explicitly
+            if not (isinstance(d, ast.Constant) and type(d.value) in (int, float)):
+                self.refuse(d, 'default value of a parameter that is not a number')
         for d in fn.decorator_list:
             name = d.id if isinstance(d, ast.Name) else (d.func.id if isinstance(d, ast.Call) and isinstance(d.func, ast.Name) else None)
             if name not in self.DECORATORS:
@@ -797,6 +859,8 @@ class ArrayFuncTranslator(FuncTranslator):
         for a in fn.args.args:
             ann = a.annotation.id if isinstance(a.annotation, ast.Name) else (
                 a.annotation.value if isinstance(a.annotation, ast.Constant) and isinstance(a.annotation.value, str) else None)
+            if isinstance(a.annotation, ast.Name) and ann in self.typevars:
+                ann = self.typevars[ann]          # a constrained TypeVar: the real instance (recorded in the header of the file)
             core = ann[6:-1] if isinstance(ann, str) and ann.startswith('Final[') and ann.endswith(']') else ann
             if a.arg in types:
                 self.refuse(a, 'parameter %s has the name of a function the body calls' % a.arg)
@@ -804,10 +868,16 @@ class ArrayFuncTranslator(FuncTranslator):
                 types[a.arg] = self.int_type
             elif ann == 'float':
                 types[a.arg] = 'Rat'
+            elif ann == 'bool' and self.procedures:
+                types[a.arg] = 'Bool'
             elif core in ARR_ANN:
                 types[a.arg] = ARR_OF_DIM[ARR_ANN[core]]
                 if ARR_ANN[core] == 1:
                     types[a.arg + '_len'] = 'Nat'
+                elif a.arg in shaped:
+                    for d_ in range(ARR_ANN[core]):
+                        types['%s_len%d' % (a.arg, d_)] = 'Nat'
+                    self.shaped.add(a.arg)
                 if ann.startswith('Final'):
                     self.final.add(a.arg)
             elif isinstance(ann, str) and self.fun_annotation(a, ann):
@@ -860,6 +930,10 @@ class ArrayFuncTranslator(FuncTranslator):
                     self.refuse(n, 'the same name twice in a tuple target')
                 if isinstance(n.value, ast.Tuple) and len(n.value.elts) == len(names):
                     vals = list(n.value.elts)
+                elif self.shape_of(n.value, types) is not None:
+                    if len(self.shape_of(n.value, types)) != len(names):
+                        self.refuse(n, '%s unpacked into %d names' % (ast.unparse(n.value), len(names)))
+                    vals = [('ret', 'Nat')] * len(names)
                 elif isinstance(n.value, ast.Call) and isinstance(n.value.func, ast.Name) and n.value.func.id in self.sigs \
                         and isinstance(self.sigs[n.value.func.id][1], list) and len(self.sigs[n.value.func.id][1]) == len(names):
                     vals = [('ret', t) for t in self.sigs[n.value.func.id][1]]
@@ -917,7 +991,8 @@ class ArrayFuncTranslator(FuncTranslator):
                     self.ret_type.append('Int')
                 else:
                     self.ret_type.append('Nat')
-        params = [q for p_ in params for q in ([p_, p_ + '_len'] if types[p_] == 'Nat → Rat' else [p_])]
+        params = [q for p_ in params for q in ([p_, p_ + '_len'] if types[p_] == 'Nat → Rat' else (
+            [p_] + ['%s_len%d' % (p_, d_) for d_ in range(ARR_TYPES[types[p_]])] if p_ in self.shaped else [p_]))]
         seen, ordered = set(), []
         for v in params + order:
             if v not in seen:
@@ -931,6 +1006,17 @@ class ArrayFuncTranslator(FuncTranslator):
             types['ret_'] = self.ret_type
             ordered.append('ret_')
         return params, ordered, types
+
+    def shape_of(self, e, types):
+        """`a.shape` of an array whose extents are known to the translation -> the Lean fields holding them (else None)"""
+        if not (isinstance(e, ast.Attribute) and e.attr == 'shape' and isinstance(e.value, ast.Name)):
+            return None
+        a = e.value.id
+        if types.get(a) == 'Nat → Rat':
+            return ['%s_len' % a]
+        if a in self.shaped:
+            return ['%s_len%d' % (a, d_) for d_ in range(ARR_TYPES[types[a]])]
+        return None
 
     def is_empty_call(self, e):
         return isinstance(e, ast.Call) and isinstance(e.func, ast.Name) and e.func.id == 'empty'
@@ -982,6 +1068,11 @@ class ArrayFuncTranslator(FuncTranslator):
 
     def int_kind(self, e, types):
         return 'Int' if self.is_int(e.left, types) or self.is_int(e.comparators[0], types) else 'Nat'
+
+    def cond(self, e, types):
+        if isinstance(e, ast.Name) and types.get(e.id) == 'Bool':
+            return '(σ.%s = true)' % e.id
+        return super().cond(e, types)
 
     # ---- expressions ------------------------------------------------------------------------------------------
     def expr_int(self, e, types):
@@ -1043,8 +1134,21 @@ class ArrayFuncTranslator(FuncTranslator):
             if want != 'Rat':
                 self.refuse(e, 'array element used as an integer')
             return '(σ.%s %s)' % (e.value.id, ' '.join(self.index(e, types)))
+        if isinstance(e, ast.Subscript) and self.shape_of(e.value, types) is not None:
+            # `a.shape[k]` with a literal k: an extent parameter
+            flds = self.shape_of(e.value, types)
+            if not (isinstance(e.slice, ast.Constant) and type(e.slice.value) is int and 0 <= e.slice.value < len(flds)):
+                self.refuse(e, '%s indexed by something that is not a literal below the number of dimensions' % ast.unparse(e.value))
+            return 'σ.%s' % flds[e.slice.value] if want == 'Nat' else '(σ.%s : %s)' % (flds[e.slice.value], want)
+        if isinstance(e, ast.BinOp) and isinstance(e.op, ast.Mod) and want == 'Rat' and self.is_rat(e, types):
+            if not self.procedures:
+                self.refuse(e, '// or % on a float')
+            # Python's `a % b` on floats: a - b*floor(a/b) (the sign of the divisor); `pyMod` is defined in the generated file
+            return '(pyMod %s %s)' % (self.expr(e.left, types, 'Rat'), self.expr(e.right, types, 'Rat'))
         if isinstance(e, ast.Call) and isinstance(e.func, ast.Name) and types.get(e.func.id) == 'ext':
             argt, ret = self.ext[e.func.id]
+            if ret in ARR_TYPES and want != 'proc':
+                self.refuse(e, 'the procedure %s used as a value' % e.func.id)
             if e.keywords or len(e.args) != len(argt):
                 self.refuse(e, 'call of %s: positional arguments, as many as its type says' % e.func.id)
             parts = []
@@ -1053,11 +1157,17 @@ class ArrayFuncTranslator(FuncTranslator):
                     if not (isinstance(a, ast.Name) and types.get(a.id) == 'Nat → Rat'):
                         self.refuse(e, 'an array argument must be the name of a 1-D array')
                     parts.append('σ.%s σ.%s_len' % (a.id, a.id))
+                elif t.endswith('Nat → Nat → Rat'):
+                    if not (isinstance(a, ast.Name) and types.get(a.id) == 'Nat → Nat → Rat' and a.id in self.shaped):
+                        self.refuse(e, 'a 2-D array argument must be the name of a 2-D parameter array')
+                    parts.append('σ.%s σ.%s_len0 σ.%s_len1' % (a.id, a.id, a.id))
                 else:
                     if t == 'Nat' and self.is_int(a, types):
                         self.refuse(e, 'a possibly negative integer passed to a parameter translated as a natural number')
                     parts.append(self.expr(a, types, t))
             txt = '(σ.%s %s)' % (e.func.id, ' '.join(parts))
+            if want == 'proc':
+                return txt
             if ret == want:
                 return txt
             if ret == 'Nat' and want == 'Rat':
@@ -1136,9 +1246,35 @@ class ArrayFuncTranslator(FuncTranslator):
             return self.call_stmt(s, s.value, s.targets[0].id, types, rest, k_end, k_break, ind, fuel)
         if isinstance(s, ast.Assign) and isinstance(s.targets[0], ast.Tuple) and is_known(s.value):
             return self.call_stmt(s, s.value, [x.id for x in s.targets[0].elts], types, rest, k_end, k_break, ind, fuel)
+        if isinstance(s, ast.Expr) and isinstance(s.value, ast.Call) and isinstance(s.value.func, ast.Name) \
+                and types.get(s.value.func.id) == 'ext' and self.ext[s.value.func.id][1] in ARR_TYPES:
+            # a call of a procedure parameter `()(…)`: the one array it may write receives `g(all arguments)` (g uninterpreted)
+            c = s.value
+            argt = self.ext[c.func.id][0]
+            if c.keywords or len(c.args) != len(argt):
+                self.refuse(s, 'call of %s: positional arguments, as many as its type says' % c.func.id)
+            out = c.args[[t.startswith('out:') for t in argt].index(True)]
+            arrs = [a.id for a in c.args if isinstance(a, ast.Name) and types.get(a.id) in ARR_TYPES]
+            if not isinstance(out, ast.Name) or out.id in self.final or arrs.count(out.id) != 1:
+                self.refuse(s, 'the array written by %s must be a non-Final array that is not passed twice' % c.func.id)
+            return '%slet σ : St := { σ with %s := %s }\n%s' % (
+                pad, out.id, self.expr(c, types, 'proc'), self.block(rest, types, k_end, k_break, ind, fuel))
+        if isinstance(s, ast.ImportFrom) and self.procedures:
+            return self.block(rest, types, k_end, k_break, ind, fuel)      # `from numpy import pi`: checked in infer_types
         if isinstance(s, ast.Assign) and isinstance(s.targets[0], ast.Tuple):
             # `a, b = e1, e2`: every right-hand side is evaluated in the state before the statement (one structure update)
-            names, vals = [x.id for x in s.targets[0].elts], s.value.elts
+            names = [x.id for x in s.targets[0].elts]
+            if self.shape_of(s.value, types) is not None:
+                # `n, m = a.shape`: the extents of the array are parameters of the translation
+                flds = self.shape_of(s.value, types)
+                if len(flds) != len(names) or any(types.get(v) != 'Nat' for v in names):
+                    self.refuse(s, 'unpacking of %s' % ast.unparse(s.value))
+                return '%slet σ : St := { σ with %s }\n%s' % (
+                    pad, ', '.join('%s := σ.%s' % (v, f_) for v, f_ in zip(names, flds)),
+                    self.block(rest, types, k_end, k_break, ind, fuel))
+            if not isinstance(s.value, ast.Tuple):
+                self.refuse(s, 'tuple assignment from %s' % type(s.value).__name__)
+            vals = s.value.elts
             for v, val in zip(names, vals):
                 if types.get(v) not in ('Nat', 'Int', 'Rat'):
                     self.refuse(s, 'assignment to %s' % v)
@@ -1346,7 +1482,34 @@ def module_bindings(tree, name):
     return bound
 
 
-def kernel_functions(repo, rel, names, int_type='Nat', pure_imports=()):
+def typevar_real_instance(tree, rel, name):
+    """`name = TypeVar('name', c1, c2, …)` at module level (bound exactly once, `TypeVar` being `typing.TypeVar`), every constraint a pyccel
+    array annotation given as a string, all of the same number of dimensions, element types float / complex128 only, `float` among them:
+    returns (the float annotation, all constraints).  The translation is that of the REAL instance."""
+    b = module_bindings(tree, name)
+    tv = module_bindings(tree, 'TypeVar')
+    if not (len(tv) == 1 and isinstance(tv[0][0], ast.ImportFrom) and tv[0][0] in tree.body and tv[0][0].module == 'typing'
+            and tv[0][0].level == 0 and tv[0][1].name == 'TypeVar'):
+        raise Refuse(tree, '`TypeVar` is not typing.TypeVar, imported once at module level', rel)
+    asg = [n for n in tree.body if isinstance(n, ast.Assign) and len(n.targets) == 1 and isinstance(n.targets[0], ast.Name)
+           and n.targets[0].id == name]
+    if len(b) != 1 or len(asg) != 1:
+        raise Refuse(tree, 'the type variable %s is not bound exactly once, by a module-level assignment' % name, rel)
+    c = asg[0].value
+    if not (isinstance(c, ast.Call) and isinstance(c.func, ast.Name) and c.func.id == 'TypeVar' and not c.keywords and len(c.args) >= 2
+            and all(isinstance(x, ast.Constant) and isinstance(x.value, str) for x in c.args) and c.args[0].value == name):
+        raise Refuse(asg[0], '%s must be TypeVar(%r, <string constraints>)' % (name, name), rel)
+    cons = [x.value for x in c.args[1:]]
+    real = [x for x in cons if x in ARR_ANN]
+    if len(real) != 1:
+        raise Refuse(asg[0], 'the constraints of %s must contain exactly one float array type' % name, rel)
+    for x in cons:
+        if x != real[0] and x != 'complex128' + real[0][len('float'):]:
+            raise Refuse(asg[0], 'constraint %s of %s: only the complex128 array of the same dimensions besides %s' % (x, name, real[0]), rel)
+    return real[0], cons
+
+
+def kernel_functions(repo, rel, names, int_type='Nat', pure_imports=(), typevars=()):
     """the source, the translator and the FunctionDef nodes of the requested kernels of the module `rel` (in the order given: callees
     first).  `pure_imports`: module-level names that must be bound exactly once, by a relative `from .. import`, to a `@pure` function
     whose parameters and result are all `float`; calls of them are translated as applications of an uninterpreted function."""
@@ -1376,6 +1539,8 @@ def kernel_functions(repo, rel, names, int_type='Nat', pure_imports=()):
             raise Refuse(d, '%s must be a @pure function of floats that returns a float' % nm, mrel)
         externals[nm] = (['Rat'] * len(d.args.args), 'Rat')
     tr = ArrayFuncTranslator(rel, '', int_type=int_type, externals=externals)
+    for nm in typevars:
+        tr.typevars[nm], _ = typevar_real_instance(tree, rel, nm)
     bound = module_bindings(tree, 'empty')          # everything that binds the name `empty` anywhere in the module
     tr.numpy_empty = (len(bound) == 1 and isinstance(bound[0][0], ast.ImportFrom) and bound[0][0].module == 'numpy'
                       and bound[0][0].level == 0 and bound[0][1].name == 'empty' and bound[0][0] in tree.body)
@@ -1431,6 +1596,28 @@ def translate_flux(repo):
     return head + body + '\nend PygyroVerif.Gen.Flux\n'
 
 
+POISSON_REL = 'pygyro/poisson/poisson_tools.py'
+DENSITY_SEMANTICS = (
+    'A 4-D float array is `Nat → Nat → Nat → Nat → Rat`.  `n, m, p = rho.shape` / `nc, = quad_coeffs.shape`: the extents of a parameter array\n'
+    'are the extra parameters `rho_len0`, `rho_len1`, `rho_len2` (1-D: `quad_coeffs_len`) of `run`; nothing relates them to the functions that\n'
+    'hold the contents (reads outside the extents are not modelled as errors).  The parameter `rho` is annotated with the module-level\n'
+    'type variable `T = TypeVar(\'T\', %s)`: this file is the translation of the REAL instance `%s` (floats = exact rationals); the complex128\n'
+    'instance runs the same statements on complex numbers and is NOT translated here.\n')
+
+
+def translate_density(repo):
+    """pygyro/poisson/poisson_tools.py: `get_rho`, `get_perturbed_rho` (four nested loops, `rho[i, j, k] += …`), real instance of `T`"""
+    names = ['get_rho', 'get_perturbed_rho']
+    tr, fns, sha = kernel_functions(repo, POISSON_REL, names, typevars=('T',))
+    real, cons = typevar_real_instance(ast.parse(open(os.path.join(repo, POISSON_REL)).read()), POISSON_REL, 'T')
+    parts = [tr.function(f) for f in fns]
+    head = ('/-\nGENERATED by harness/translate_pure.py from %s, functions %s\n(sha256 of the two sources %s) — do not edit.\n%s%s%s-/\n'
+            'set_option linter.unusedVariables false\nnamespace PygyroVerif.Gen.Density\n\n%s'
+            % (POISSON_REL, ', '.join(names), sha, SPLINE_SEMANTICS, ARRAY_SEMANTICS_ND,
+               DENSITY_SEMANTICS % (', '.join(repr(x) for x in cons), real), SPLINE_TYPES))
+    return head + '\n'.join(parts) + '\nend PygyroVerif.Gen.Density\n'
+
+
 CU_REL = 'pygyro/splines/cubic_uniform_spline_eval_funcs.py'
 INT_SEMANTICS = (
     'In this file every Python `int` parameter is a Lean `Int` (the span is negative left of the domain) and so is every local that receives such a\n'
@@ -1453,6 +1640,32 @@ def translate_cueval(repo):
     return head + '\n'.join(parts) + '\nend PygyroVerif.Gen.CubicUniform\n'
 
 
+VECTOR_SEMANTICS = (
+    'The default value `der = 0` of the last parameter concerns callers only: `run` takes every parameter explicitly.  The local array `basis` is\n'
+    'obtained ONCE with `empty` (contents `U`) and re-used by every iteration of the loop over `x`: iteration `i` hands the kernels what iteration `i-1` left in it.\n')
+
+
+def translate_evalvec(repo):
+    """the vector entry points `nu_eval_spline_1d_vector` (spline_eval_funcs.py) and `cu_eval_spline_1d_vector`
+    (cubic_uniform_spline_eval_funcs.py); the kernels they call are those of EvalSplineGen.lean / BasisFunsGen.lean / CubicUniformGen.lean"""
+    nu = ['nu_basis_funs', 'nu_find_span', 'nu_basis_funs_1st_der', 'nu_eval_spline_1d_vector']
+    tr, fns, sha_nu = spline_functions(repo, nu)
+    nu_part = [tr.function(f) for f in fns][-1]        # the first three only register the signatures of the callees
+    cu = ['cu_find_span', 'cu_basis_funs', 'cu_basis_funs_1st_der', 'cu_eval_spline_1d_vector']
+    tr, fns, sha_cu = kernel_functions(repo, CU_REL, cu, int_type='Int')
+    cu_part = [tr.function(f) for f in fns][-1]
+    head = ('/-\nGENERATED by harness/translate_pure.py from %s, function %s, and %s, function %s\n'
+            '(calling the kernels of BasisFunsGen.lean, EvalSplineGen.lean and CubicUniformGen.lean; sha256 of the sources of the functions and their\n'
+            'callees %s / %s) — do not edit.\n%s%s%s%s-/\n'
+            'import PygyroVerif.Generated.EvalSplineGen\nimport PygyroVerif.Generated.CubicUniformGen\n\n'
+            'set_option linter.unusedVariables false\n'
+            % (SPLINE_REL, nu[-1], CU_REL, cu[-1], sha_nu, sha_cu, SPLINE_SEMANTICS, INT_SEMANTICS.replace('In this file', 'In the namespace EvalVectorCu'),
+               EXT_SEMANTICS.split('Calls of')[0], VECTOR_SEMANTICS))
+    return (head + 'namespace PygyroVerif.Gen.EvalVectorNu\nopen PygyroVerif.Gen.BasisFuns PygyroVerif.Gen.EvalSpline\n\n' + nu_part
+            + '\nend PygyroVerif.Gen.EvalVectorNu\n\nnamespace PygyroVerif.Gen.EvalVectorCu\nopen PygyroVerif.Gen.CubicUniform\n\n' + cu_part
+            + '\nend PygyroVerif.Gen.EvalVectorCu\n')
+
+
 EXT_SEMANTICS = (
     '`for i, v in enumerate(a)` over a 1-D float array makes `len(a)` iterations (evaluated once) and reads `v = a[i]` at the start of each one (the body\n'
     'does not write `a`).  Calls of `f_eq` (a `@pure` function of floats imported from another module) and of the function parameter\n'
@@ -1469,12 +1682,36 @@ def translate_vpar(repo):
     return head + body + '\nend PygyroVerif.Gen.VPar\n'
 
 
+POLEXPL_SEMANTICS = (
+    '`from numpy import pi` in the body: `pi` is a leading parameter of `run` (an arbitrary rational; the theorems state `0 < pi` where they need it).\n'
+    '`a % b` on floats is `pyMod a b = a - b*floor(a/b)` (Python: the result has the sign of the divisor; this is the value for every b ≠ 0, computed\n'
+    'exactly; the kernel only uses b = 2*pi > 0; b = 0 raises in Python and gives `a` here).  A `bool` parameter is a Lean `Bool`, `if (b):` tests `b = true`.\n'
+    'An array of 2 dimensions that is handed to a function parameter is passed as (contents, extent 0, extent 1): the extents `a_len0`, `a_len1` are extra\n'
+    'parameters of `run`; `a.shape[0]` of a 1-D array is `a_len`.  Function parameters are UNINTERPRETED total functions of their arguments (no hidden state):\n'
+    '`eval_spline_2d_scalar` (float result, every array argument `Final`) is applied; the procedure `eval_spline_2d_cross` (type `()(…)`, exactly one array argument\n'
+    'that is not `Final`) is modelled as `that array := eval_spline_2d_cross(all arguments, including the previous contents of that array)`.  `f_eq` (a `@pure`\n'
+    'function of floats imported from another module) is an uninterpreted function too.  Distinct array parameters are distinct arrays (no aliasing).\n')
+PYMOD_DEF = ('/-- Python\'s `a % b` on floats, exact: `a - b*floor(a/b)` -/\n'
+             'def pyMod (a b : Rat) : Rat := a - b * ((Rat.floor (a / b) : Int) : Rat)\n\n')
+
+
+def translate_polexpl(repo):
+    """pygyro/advection/accelerated_advection_steps.py: `general_poloidal_advection_step_expl` (Heun predictor / corrector on the (theta, r) nodes)"""
+    tr, fns, sha = kernel_functions(repo, ADV_REL, ['general_poloidal_advection_step_expl'], pure_imports=('f_eq',))
+    tr.procedures = True
+    body = tr.function(fns[0])
+    head = ('/-\nGENERATED by harness/translate_pure.py from %s, function general_poloidal_advection_step_expl\n(sha256 of its source %s) — do not edit.\n%s%s%s-/\n'
+            'set_option linter.unusedVariables false\nnamespace PygyroVerif.Gen.PolExpl\n\n%s%s'
+            % (ADV_REL, sha, SPLINE_SEMANTICS, ARRAY_SEMANTICS_ND, POLEXPL_SEMANTICS, SPLINE_TYPES, PYMOD_DEF))
+    return head + body + '\nend PygyroVerif.Gen.PolExpl\n'
+
+
 def main():
     ap = argparse.ArgumentParser()
     ap.add_argument('--repo', default=os.environ.get('PYGYRO_REPO', '/repo'))
     ap.add_argument('--out', default=DEFAULT_OUT)
     ap.add_argument('--quiet', action='store_true')
-    ap.add_argument('--only', choices=['procgrid', 'blocks', 'grid', 'findspan', 'basisfuns', 'eval1d', 'flux', 'cueval', 'vpar'], help='translate one target only')
+    ap.add_argument('--only', choices=['procgrid', 'blocks', 'grid', 'findspan', 'basisfuns', 'eval1d', 'flux', 'cueval', 'vpar', 'density', 'evalvec', 'polexpl'], help='translate one target only')
     a = ap.parse_args()
     os.makedirs(a.out, exist_ok=True)
     status = 0
@@ -1486,7 +1723,10 @@ def main():
                            ('eval1d', 'EvalSplineGen.lean', lambda: translate_eval1d(a.repo)),
                            ('flux', 'FluxGen.lean', lambda: translate_flux(a.repo)),
                            ('cueval', 'CubicUniformGen.lean', lambda: translate_cueval(a.repo)),
-                           ('vpar', 'VParGen.lean', lambda: translate_vpar(a.repo))):
+                           ('vpar', 'VParGen.lean', lambda: translate_vpar(a.repo)),
+                           ('density', 'DensityGen.lean', lambda: translate_density(a.repo)),
+                           ('evalvec', 'EvalVectorGen.lean', lambda: translate_evalvec(a.repo)),
+                           ('polexpl', 'PolExplGen.lean', lambda: translate_polexpl(a.repo))):
         if a.only and a.only != key:
             continue
         path = os.path.join(a.out, fname)
